@@ -243,3 +243,16 @@ lay_check(ldb_t *db, const char *dbdir, const kcfg_t *cfg, lay_stats_t *stats, c
   rm_state_free(&st);
   return ok;
 }
+
+/* C13 (b): the directory holds exactly the live files, where "live logs" = every log numbered >= the
+ * log number recorded in the live MANIFEST (decoded independently) or == its prev log number */
+int
+lay_files_exact_check(ldb_t *db, const char *dbdir, char *err, size_t en) {
+  rm_state_t st;
+  long long min_log;
+  if (!lay_manifest_state(dbdir, &st, err, en))
+    return 0;
+  min_log = st.has_log_number ? (long long)st.log_number : 0;
+  rm_state_free(&st);
+  return kv_files_exact_check2(db, dbdir, min_log, err, en);
+}
